@@ -807,6 +807,7 @@ func run(c *hl.Ctx) {
 	if c.Expired() {
 		return
 	}
+	c.Info("control_sequence_family_complete", true)
 	codecs(c)
 	if c.Expired() {
 		return
